@@ -129,6 +129,7 @@ type gidEntry struct {
 type ClockPlan struct {
 	Jumps  []time.Duration // taken in order
 	Weight int
+	Gate   Enabler // optional: jumps are only offered while Gate.Enabled(0)
 	next   int
 }
 
@@ -142,6 +143,7 @@ type Sim struct {
 	// go:norace state
 	step     int
 	abort    bool
+	idle     bool
 	trace    []Step
 	notes    []string
 	mutexes  [16]mutexMirror
@@ -164,6 +166,18 @@ func (s *Sim) NewSlot(name string, weight int) *Slot {
 	s.slots = append(s.slots, sl)
 	return sl
 }
+
+//go:norace
+func (s *Sim) idleNow() bool { return s.idle }
+
+//go:norace
+func (s *Sim) setIdle(v bool) { s.idle = v }
+
+// IdleNow reports that nothing else was able to move at the last quiescent
+// point (for Enablers of operations that are armed "from step N on").
+//
+//go:norace
+func (s *Sim) IdleNow() bool { return s.idle }
 
 //go:norace
 func (s *Sim) aborting() bool { return s.abort }
@@ -383,11 +397,16 @@ func (s *Sim) Run(done Enabler) StopReason {
 		en, total := s.enabledSlots(buf)
 		buf = en
 		clockW := 0
-		if c := s.Clock; c != nil && c.next < len(c.Jumps) {
+		if c := s.Clock; c != nil && c.next < len(c.Jumps) && (c.Gate == nil || c.Gate.Enabled(0)) {
 			clockW = c.Weight
 			if clockW <= 0 {
 				clockW = 1
 			}
+		}
+		if len(en) == 0 && clockW == 0 && !s.idleNow() {
+			// Tell gates that wait for "later" (armed faults) that later is now.
+			s.setIdle(true)
+			continue
 		}
 		if len(en) == 0 && clockW == 0 {
 			// Nothing can move. Release whatever a timer would release
@@ -404,6 +423,7 @@ func (s *Sim) Run(done Enabler) StopReason {
 			continue
 		}
 		idle = 0
+		s.setIdle(false)
 		pick := s.Tape.Draw(total + clockW)
 		if pick >= total {
 			c := s.Clock
